@@ -319,10 +319,7 @@ def run_all(run, t):
     # EOF (cancel) received by the receiver finishes with the EOF's condition; disposition decides deletion
     for r in logs:
         if r.get("who") == "D" and r.get("delivered") and r["in"][0] == "EOF" and r["in"][1] != "NO_ERROR" and not r["exc"] \
-                and r["before"][1] in RECEIVING_STEPS:
-            md_before = any(x.get("who") == "D" and x.get("delivered") and x["in"][0] == "MD" for x in logs[:logs.index(r)])
-            if not md_before:
-                continue   # (known finding F16 territory)
+                and r["before"][1] in RECEIVING_STEPS + ("WAITING_FOR_METADATA",):
             fins = [i for i in inds if i[0] == "D" and i[1] == "finished" and i[-1] >= r["round"]]
             if c["ind"].get("transaction_finished_indication_required", True) and not any(cc[0] == "D" for cc in cancels):
                 if not fins:
@@ -330,7 +327,9 @@ def run_all(run, t):
                         V("C12", "EOF (cancel) ended the transaction at the receiver without a Transaction-Finished indication")
                 elif fins[0][3] != r["in"][1]:
                     V("C12", f"EOF ({r['in'][1]}) at the receiver finished with condition code {fins[0][3]}")
-                elif fins[0][4] == "DATA_INCOMPLETE":
+                elif fins[0][4] == "DATA_INCOMPLETE" and any(
+                        x.get("who") == "D" and x.get("delivered") and x["in"][0] == "MD" for x in logs[:logs.index(r)]):
+                    # (the file exists only once the Metadata PDU was processed)
                     exists = cur["dest_path"].exists()
                     if c["disp"] and exists:
                         V("C12", "incomplete file kept although disposition-on-cancellation is set")
